@@ -58,7 +58,7 @@ impl Profile {
         let mut p = Profile::base("cache");
         match prop {
             "C01" => { p.name = "bound"; p.mutate = 14; p.set_max = 10; p.boundary = 9; p.try_insert = 8; },
-            "C02" => { p.name = "accounting"; p.mutate = 14; p.remove = 10; p.retain = 5; p.walk = 6; p.clone = 4; p.capacity = 8; },
+            "C02" => { p.name = "accounting"; p.mutate = 14; p.remove = 10; p.retain = 5; p.walk = 6; p.clone = 4; p.capacity = 8; p.inject = 3; },
             "C03" => { p.name = "eviction"; p.insert = 26; p.promote = 14; p.mutate = 12; p.set_max = 10; p.boundary = 10; p.remove = 3; p.clear = 0; },
             "C04" => { p.name = "map"; p.colliding = 6; p.remove = 14; p.capacity = 10; p.insert = 28; p.peek = 10; p.insert_many = 3; },
             "C05" => { p.name = "order"; p.promote = 18; p.peek = 12; p.mutate = 10; p.try_insert = 8; p.capacity = 8; p.debug = 3; p.clone = 3; p.insert_many = 3; p.clear = 0; },
@@ -68,10 +68,10 @@ impl Profile {
             "C11" => { p.name = "mutate"; p.mutate = 36; p.boundary = 10; p.insert = 20; p.promote = 6; },
             "C12" => { p.name = "walks"; p.walk = 30; p.insert = 24; p.capacity = 6; p.remove = 8; p.insert_many = 3; },
             "C13" => { p.name = "capacity"; p.capacity = 40; p.churn = 5; p.insert_many = 5; p.remove = 10; },
-            "C14" => { p.name = "clone"; p.clone = 14; p.side = 12; p.mutate = 10; p.capacity = 8; p.set_max = 6; },
-            "C15" => { p.name = "retain"; p.retain = 24; p.insert = 26; p.promote = 8; p.mutate = 6; },
+            "C14" => { p.name = "clone"; p.clone = 14; p.side = 12; p.mutate = 10; p.capacity = 8; p.set_max = 6; p.inject = 3; },
+            "C15" => { p.name = "retain"; p.retain = 24; p.insert = 26; p.promote = 8; p.mutate = 6; p.inject = 3; },
             "C17" => { p.name = "forget"; p.walk = 24; p.forget = 8; p.insert = 26; p.capacity = 6; p.clone = 3; },
-            "C19" => { p.name = "shared"; p.peek = 24; p.walk = 10; p.debug = 6; p.clone = 6; p.scalars = 4; p.forget = 0; },
+            "C19" => { p.name = "shared"; p.peek = 24; p.walk = 10; p.debug = 6; p.clone = 8; p.scalars = 4; p.forget = 0; p.inject = 4; },
             "C20" => { p.name = "hashing"; p.insert_many = 6; p.promote = 12; p.capacity = 8; p.retain = 4; p.churn = 2; p.walk = 6; },
             _ => { },
         }
